@@ -154,8 +154,7 @@ def run(chk: Check):
     for plan, pool, k in todo:
         res = chk.run_model(naming.model(pool, k, plan.is_dir, plan.kind, no_combine=plan.nocomb),
                             label=f"design: {plan.label}, <= {k} of {len(plan.pool)} names", timeout_s=3000)
-        stride = max(1, len(res.cases) // budget)
-        picked = res.cases[(chk.seed + 5) % stride::stride]
+        picked = naming.pick(res.cases, budget, chk.seed + 5)
         if k == 4 and len(pool) <= 5:        # targeted pool: every 4-sibling sequence with two duplicate groups, unstrided
             picked = [c for c in res.cases if len(c["names"]) == 4 and naming.collision_rich([naming.S(n) for n in c["names"]])]
         for i, c in enumerate(picked):
